@@ -23,13 +23,16 @@ NCPU = os.cpu_count() or 4
 MEM_UNWIND = ','.join(f'vp_mem{f}.{k}:{n}' for f, n in (('move_b', 34), ('move_w', 10), ('move_q', 10), ('move_p', 10), ('set_b', 34)) for k in (0, 1) if not (f == 'set_b' and k == 1))
 
 
+HB_UNWIND = ','.join(f'{f}.{k}:14' for f in ('vp_hb_init', 'vp_hb_fork', 'vp_hb_joinall', 'vp_ho_slot', 'vp_hb_acquire_from', 'vp_hb_release_to', 'vp_hs_slot', 'vp_hb_na_write', 'vp_hb_astore_i', 'vp_hb_aload', 'vp_hb_rmw') for k in (0, 1, 2))
+
+
 class Query:
     def __init__(s, name, cpp, q, defines=(), unwind=3, unwindset=None, timeout=600, solvers=('kissat', 'minisat'), checks=None,
-                 witness=True, expect_witness=True, note='', mem_gb=24, extra_flags=(), must_cover=0):
+                 witness=True, expect_witness=True, note='', mem_gb=24, extra_flags=(), must_cover=0, tv=True):
         s.name, s.cpp, s.q, s.defines = name, cpp, q, tuple(defines)
         s.unwind, s.unwindset, s.timeout, s.solvers = unwind, unwindset, timeout, tuple(solvers)
         s.checks, s.witness, s.note, s.mem_gb = checks, witness, note, mem_gb
-        s.extra_flags = tuple(extra_flags); s.must_cover = must_cover
+        s.extra_flags = tuple(extra_flags); s.must_cover = must_cover; s.tv = tv
 
 
 def sh(cmd, **kw):
@@ -125,7 +128,7 @@ def extract_schedule(trace, tnames):
         val = st.get('value', {})
         data = val.get('data') if isinstance(val, dict) else None
         fn = (st.get('sourceLocation') or {}).get('function', '')
-        if lhs == 'v' and fn in ('vp_nd_int', 'vp_nd_uint', 'vp_nd_uchar'):
+        if lhs == 'vp_nd_last' and fn in ('vp_nd_int', 'vp_nd_uint', 'vp_nd_uchar'):
             try: draws.append(int(str(data).rstrip('ulL')))
             except Exception: pass
             continue
@@ -163,6 +166,49 @@ def native_replay(cfile, draws, workdir, flags=()):
     return False, 'native run of the generated C finished without any failure'
 
 
+def translation_validate(Q, cfile, work, k, seed):
+    """E7 (DESIGN.md): run K concrete input vectors through (a) the native build of the generated C under the greedy schedule and
+    (b) the harness compiled by g++ against the real /repo headers, thread entries run to completion in the same order; the
+    observation logs (assertion ids, ghost state, coverage bits, vp_log records) must be identical."""
+    import random
+    rnd = random.Random(seed * 7919 + hash(Q.name) % 1000)
+    gen = cfile[:-2] + '.tvgen'; real = cfile[:-2] + '.tvreal'
+    r = sh(['gcc', '-DVP_NATIVE', '-DVP_GREEDY', '-O0', '-w', '-I', os.path.join(ROOT, 'engine')] + list(Q.extra_flags) + [cfile, os.path.join(ROOT, 'engine', 'vp_native.c'), '-o', gen])
+    if r.returncode != 0: return dict(error='generated C does not build natively: ' + r.stdout[-300:])
+    r = sh(['g++', '-std=c++17', '-O1', '-w', '-I', REPO, '-I', os.path.join(ROOT, 'harness')] + [f'-D{d}' for d in Q.defines] +
+           [os.path.join(ROOT, 'harness', Q.cpp), os.path.join(ROOT, 'engine', 'vp_native_real.cpp'), '-rdynamic', '-ldl', '-pthread', '-o', real])
+    if r.returncode != 0: return dict(error='harness does not build natively: ' + r.stdout[-300:])
+    threads = Q.q.get('threads', []); order = Q.q.get('order', list(range(len(threads))))
+    args = [Q.q.get('setup') or '-'] + [f'{fn}:0' for fn in Q.q.get('seq', [])] + [f'{threads[t][1]}:{t + 1}' for t in order] + [Q.q.get('final') or '-']
+    def parse(out):
+        keep = []
+        for ln in out.split('\n'):
+            m = re.match(r'ASSERT-FAIL id=(-?\d+)', ln)
+            if m and int(m.group(1)) >= 0: keep.append('ASSERT ' + m.group(1))
+            elif ln.startswith(('GHOST ', 'COVER ', 'LOG ')): keep.append(ln.strip())
+        return sorted(keep)
+    res = dict(vectors=0, validated=0, skipped_blocking=0, skipped_assume=0, mismatches=[])
+    for i in range(k):
+        vec = [rnd.choice([0, 1, 2, 3, 0, 1, rnd.randint(0, 6)]) for _ in range(24)]
+        env = dict(os.environ, VP_NONDET=','.join(map(str, vec)), VP_TV='1')
+        res['vectors'] += 1
+        try:
+            g = subprocess.run([gen], stdout=subprocess.PIPE, stderr=subprocess.STDOUT, text=True, env=env, timeout=20)
+        except subprocess.TimeoutExpired:
+            res['skipped_blocking'] += 1; continue
+        if 'ASSUME-FAIL' in g.stdout: res['skipped_assume'] += 1; continue
+        if re.search(r'DONE \w+ 0', g.stdout) or 'self-deadlock' in g.stdout: res['skipped_blocking'] += 1; continue
+        try:
+            h = subprocess.run([real] + args, stdout=subprocess.PIPE, stderr=subprocess.STDOUT, text=True, env=env, timeout=20)
+        except subprocess.TimeoutExpired:
+            res['skipped_blocking'] += 1; continue
+        if 'ASSUME-FAIL' in h.stdout: res['skipped_assume'] += 1; continue
+        a, b = parse(g.stdout), parse(h.stdout)
+        if a == b and h.returncode == 0: res['validated'] += 1
+        else: res['mismatches'].append(dict(vector=vec[:10], generated=a[:12], real=b[:12], real_rc=h.returncode))
+    return res
+
+
 class Runner:
     def __init__(s, pid, tier, keep=False, only=None):
         s.pid, s.tier, s.keep, s.only = pid, tier, keep, only
@@ -184,9 +230,10 @@ class Runner:
 
     def job(s, Q, cfile, kind, solver):
         flags = ['--unwind', str(Q.unwind)]
-        uws = MEM_UNWIND + ((',' + Q.unwindset) if Q.unwindset else '')
+        uws = MEM_UNWIND + ((',' + Q.unwindset) if Q.unwindset else '') + ((',' + HB_UNWIND) if Q.q.get('opts', {}).get('hb') else '')
         flags += ['--unwindset', uws]
-        flags += ['--drop-unused-functions', '--slice-formula'] + solver_flags(solver) + list(Q.extra_flags)
+        flags += ['--drop-unused-functions'] + solver_flags(solver) + list(Q.extra_flags)
+        if kind != 'verify': flags += ['--slice-formula']     # verify runs keep every nondeterministic draw in the trace (needed for the native replay)
         if kind == 'verify':
             flags += ['--unwinding-assertions', '--trace', '--stop-on-fail']
             flags += ['--no-standard-checks']
@@ -334,6 +381,7 @@ def main():
         res = R.run(queries)
         known = [k for k in load_known() if k['pid'] == a.pid]
         violations = 0; broken = 0; verified = 0; nontrivial = 0
+        tv_done = {}; TV_K = 6 if a.tier == 'quick' else 16; TV_MAX = 6 if a.tier == 'quick' else 40
         evq = []; samples = []; funcs = []; assumptions = list(spec.get('assumptions', []))
         os.makedirs(os.path.join(ROOT, 'replays', a.pid), exist_ok=True)
         for e in res:
@@ -349,6 +397,16 @@ def main():
                 rec['visible_ops'] = {t: v['visible_ops'] for t, v in e['report']['threads'].items()}
                 for f in e['report']['functions_encoded']:
                     if f not in funcs: funcs.append(f)
+            if verdict == 'verified' and Q.tv and not Q.q.get('opts', {}).get('hb'):
+                tvkey = (Q.cpp, Q.defines, Q.q.get('setup'), tuple(map(tuple, Q.q.get('threads', []))), tuple(Q.q.get('order', [])), Q.q.get('final'), tuple(Q.q.get('seq', [])))
+                if tvkey not in tv_done and len(tv_done) < TV_MAX:
+                    tv_done[tvkey] = translation_validate(Q, e['cfile'], R.work, TV_K, seed)
+                tvr = tv_done.get(tvkey)
+                if tvr is not None:
+                    rec['translation_validation'] = tvr
+                    if tvr.get('mismatches'):
+                        verdict = 'broken'; detail = 'TRANSLATION-MISMATCH: generated C and the real code disagree on a concrete vector: ' + json.dumps(tvr['mismatches'][0])[:400]
+                        rec['verdict'] = 'broken'
             if verdict == 'verified':
                 verified += 1
                 wit = [r for r in e['runs'] if r['kind'] == 'witness_sym'] or [r for r in e['runs'] if r['kind'] == 'witness']
@@ -409,6 +467,13 @@ def main():
                                      "non-trivial when it verified AND its VP_WITNESS twin (all threads finish, coverage bits set) was shown reachable by the solver; "
                                      "queries differ in harness, wrapper/mutex instantiation, thread mix, round order or bounds",
                                 samples=samples or [dict(note='no witness schedules')],
+                                traces_validated_against_impl=sum((t.get('validated') or 0) for t in tv_done.values()),
+                                translation_validation=dict(programs=len(tv_done), vectors=sum(t.get('vectors', 0) for t in tv_done.values()),
+                                                            validated=sum(t.get('validated', 0) for t in tv_done.values()),
+                                                            skipped_blocking=sum(t.get('skipped_blocking', 0) for t in tv_done.values()),
+                                                            skipped_assume=sum(t.get('skipped_assume', 0) for t in tv_done.values()),
+                                                            errors=[t['error'] for t in tv_done.values() if t.get('error')][:3],
+                                                            note='greedy (run-to-completion) schedules only; vectors on which a thread would block are skipped'),
                                 queries=evq, functions_encoded=funcs, queries_verified=verified, queries_broken=broken,
                                 solver_seconds=round(sum(r['seconds'] for e in res for r in e['runs']), 1),
                                 technique='LLVM IR of the real headers -> C step machines (sequentialisation) -> cbmc 6.11 bounded symbolic execution -> SAT (kissat/cadical/minisat)',
